@@ -347,6 +347,11 @@ def _parse_einsum_string(einsum_str: str) -> dict:
     input_matches = re.findall(tensor_pattern, rhs)
     if not input_matches:
         raise ValueError(f"No input tensors: {original}, {rhs}")
+    if not re.fullmatch(rf"{tensor_pattern}(?:[*+]{tensor_pattern})*", rhs):
+        raise ValueError(
+            f"Invalid einsum format: {original}. The right-hand side must be tensor "
+            f"references name[projection] joined by * or +."
+        )
 
     for m in input_matches:
         update(m, False)
